@@ -12,6 +12,7 @@ EXPLANATION = ("SQL-shape and control-flow rules over the lease selection: ORDER
                "lost); the no-address error is produced only after the candidate loop is exhausted; REQUEST passes ciaddr "
                "else option 50; selection steps are ordered reuse, revive, requested, new")
 ASSUMPTIONS = ["not decided: the history-level statement (no history is executed); SQLite ordering semantics trusted"]
+EXPLANATION += "; also: C01's SQL-shape, identity, free-check-time and uniqueness rules are evaluated here too"
 EXTRA_CONFIGS = ["dhcp"]
 
 
